@@ -106,6 +106,10 @@ def _check_dims_sufficient(
     y_rank = y_shape.rank()
     if e_rank is None:
         return check_result.fail("Expand output rank is unknown.")
+    if x_rank is None or y_rank is None or e_rank > max(x_rank, y_rank):
+        # The Expand adds leading dimensions that neither operand supplies: removing it
+        # would change the rank of the result.
+        return check_result.fail("Expand increases the rank beyond that of both operands.")
 
     for rev_i in range(e_rank):
         i = e_rank - 1 - rev_i
@@ -190,6 +194,10 @@ def _check_expand_removable(
     if expand_shape_val is not None:
         expand_shape = tuple(int(v) for v in expand_shape_val.tolist())
         expand_rank = len(expand_shape)
+        if x_rank is None or y_rank is None or expand_rank > max(x_rank, y_rank):
+            # The Expand adds leading dimensions that neither operand supplies: removing it
+            # would change the rank of the result.
+            return check_result.fail("Expand increases the rank beyond that of both operands.")
 
         for rev_i in range(expand_rank):
             i = expand_rank - 1 - rev_i
